@@ -53,6 +53,22 @@ pub struct Node {
     pub untraced: UnsafeCell<Option<Cc<Node>>>,
     #[cfg(feature = "weak-ptrs")]
     pub wslot: UnsafeCell<Option<Weak<Node>>>,
+    #[cfg(feature = "cleaners")]
+    pub cleaner: rust_cc::cleaners::Cleaner,
+    /// Dropped right after the cleaner: by then every action registered on it must have run.
+    #[cfg(feature = "cleaners")]
+    pub after: AfterCleaner,
+}
+
+#[cfg(feature = "cleaners")]
+pub struct AfterCleaner {
+    pub id: usize,
+}
+#[cfg(feature = "cleaners")]
+impl Drop for AfterCleaner {
+    fn drop(&mut self) {
+        crate::h_clean::after_cleaner_dropped(self.id);
+    }
 }
 
 pub struct World {
@@ -493,6 +509,10 @@ pub fn new_node(i: usize) {
         untraced: UnsafeCell::new(None),
         #[cfg(feature = "weak-ptrs")]
         wslot: UnsafeCell::new(None),
+        #[cfg(feature = "cleaners")]
+        cleaner: rust_cc::cleaners::Cleaner::new(),
+        #[cfg(feature = "cleaners")]
+        after: AfterCleaner { id: i },
     });
     let after = state::allocated_bytes().unwrap_or(0);
     // every node has the same layout: measure the first one (created on an empty heap, so no collection can interfere)
@@ -567,6 +587,10 @@ fn node_ptr(j: usize) -> Option<*const Node> {
     } else {
         None
     }
+}
+
+pub fn stash_put_pub(i: usize, c: Cc<Node>) {
+    stash_put(i, c)
 }
 
 fn stash_put(i: usize, c: Cc<Node>) {
@@ -672,7 +696,12 @@ pub fn add_phantom(i: usize, n: u16) {
 /// Number of program-held pointers to `i`.
 pub fn held(i: usize) -> u32 {
     let w = w();
-    w.h[i].is_some() as u32 + w.h2[i].is_some() as u32 + w.stash[i].is_some() as u32 + w.phantom[i] as u32
+    let mut c = w.h[i].is_some() as u32 + w.h2[i].is_some() as u32 + w.stash[i].is_some() as u32 + w.phantom[i] as u32;
+    #[cfg(feature = "cleaners")]
+    {
+        c += crate::h_clean::captured_pointers_to(i);
+    }
+    c
 }
 
 /// Number of `Cc`s to `i` that exist according to the model.
